@@ -61,7 +61,7 @@ def slices(quick):
     return [("rid", {"Mode": '"rid"', "MaxHops": 4, "MaxReq": 1, "LimitMax": 5, "Layouts": dup, "OptHops": 4}),
             ("trace-4x1", {"Mode": '"trace"', "MaxHops": 4, "MaxReq": 1, "MaxDiscards": 3, "Layouts": every, "OptHops": 4}),
             ("trace-4x2", {"Mode": '"trace"', "MaxHops": 4, "MaxReq": 2, "MaxDiscards": 2, "Layouts": every, "OptHops": 1}),
-            ("trace-2x3", {"Mode": '"trace"', "MaxHops": 2, "MaxReq": 3, "MaxDiscards": 1, "Layouts": every, "OptHops": 2}),
+            ("trace-2x3", {"Mode": '"trace"', "MaxHops": 2, "MaxReq": 3, "MaxDiscards": 1, "Layouts": dup, "OptHops": 1}),
             ("capture", {"Mode": '"capture"', "MaxHops": 2, "MaxScript": 4})]
 
 
